@@ -1,5 +1,6 @@
 import Mdsort.Proofs.EvalPCalls
 import Mdsort.Proofs.WorldOwn
+import Mdsort.Proofs.ExecStatus
 
 /-!
 # A question the operating system could not answer makes the evaluation an error (C04)
@@ -73,9 +74,9 @@ def IsError (r : Tri × St) : Prop := r.1 = .error
 macro "fs_tail" : tactic =>
   `(tactic| repeat' (first | exact True.intro | assumption | split | (dsimp only; split)))
 
-theorem loop_failStops {env : Env} {tf : Int → Option Bytes} {root : Msg} {e : Expr}
-    (ih : ∀ (part : Nat) (m : Msg) (st : St), (evalT env tf root e part m st).FailStops (FailAns tf) IsError) (part : Nat)
-    (ps : List Msg) : ∀ (i : Nat) (st : St), (evalT.loop env tf root e part ps i st).FailStops (FailAns tf) IsError := by
+theorem loop_failStops {env : Env} {root : Msg} {e : Expr}
+    (ih : ∀ (part : Nat) (m : Msg) (st : St), (evalT env root e part m st).FailStops (FailAns env.timeFormat) IsError) (part : Nat)
+    (ps : List Msg) : ∀ (i : Nat) (st : St), (evalT.loop env root e part ps i st).FailStops (FailAns env.timeFormat) IsError := by
   induction ps with
   | nil => intro i st; simp only [evalT.loop]; exact True.intro
   | cons p rest ihp =>
@@ -88,10 +89,10 @@ theorem loop_failStops {env : Env} {tf : Int → Option Bytes} {root : Msg} {e :
     · rintro ⟨ev, s1⟩
       cases ev <;> first | exact True.intro | exact ihp _ _
 
-theorem loopB_failStops {env : Env} {tf : Int → Option Bytes} {root : Msg} {e : Expr}
-    (ih : ∀ (part : Nat) (m : Msg) (st : St), (evalT env tf root e part m st).FailStops (FailAns tf) IsError) (part : Nat)
+theorem loopB_failStops {env : Env} {root : Msg} {e : Expr}
+    (ih : ∀ (part : Nat) (m : Msg) (st : St), (evalT env root e part m st).FailStops (FailAns env.timeFormat) IsError) (part : Nat)
     (ps : List Msg) : ∀ (i : Nat) (ev0 : Tri) (st : St),
-      (evalT.loopB env tf root e part ps i ev0 st).FailStops (FailAns tf) IsError := by
+      (evalT.loopB env root e part ps i ev0 st).FailStops (FailAns env.timeFormat) IsError := by
   induction ps with
   | nil => intro i ev0 st; simp only [evalT.loopB]; exact True.intro
   | cons p rest ihp =>
@@ -105,8 +106,8 @@ theorem loopB_failStops {env : Env} {tf : Int → Option Bytes} {root : Msg} {e 
       cases ev <;> first | exact True.intro | exact ihp _ _ _
 
 /-- **A failed question makes the evaluation an error, at once**: for every rule tree, in every position. -/
-theorem evalT_failStops (env : Env) (tf : Int → Option Bytes) (root : Msg) (e : Expr) :
-    ∀ (part : Nat) (m : Msg) (st : St), (evalT env tf root e part m st).FailStops (FailAns tf) IsError := by
+theorem evalT_failStops (env : Env) (root : Msg) (e : Expr) :
+    ∀ (part : Nat) (m : Msg) (st : St), (evalT env root e part m st).FailStops (FailAns env.timeFormat) IsError := by
   induction e with
   | block lno e ih =>
     intro part m st
@@ -225,15 +226,15 @@ theorem evalT_failStops (env : Env) (tf : Int → Option Bytes) (root : Msg) (e 
 
 /-- **In a run**: if the operating system's answer to some question of the evaluation is a failure, the value of `evalP`
 is *error* (and that question was the last one asked). -/
-theorem evalP_error_of_fail (env : Env) (tf : Int → Option Bytes) (e : Expr) (m : Msg) (fl : MFlags)
+theorem evalP_error_of_fail (env : Env) (e : Expr) (m : Msg) (fl : MFlags)
     (orcl : Nat → Call → Res) (i : Nat) (k : Nat) (q : Req) (a : SysAns)
-    (hq : (evalR env tf e m fl ((evalTop env tf e m fl).answers orcl i)).2[k]? = some q)
-    (ha : ((evalTop env tf e m fl).answers orcl i)[k]? = some a) (hF : FailAns tf q a) :
-    (Own.runO orcl (evalP env tf e m fl) i).1.1 = .error ∧
-    (evalR env tf e m fl ((evalTop env tf e m fl).answers orcl i)).2.length = k + 1 := by
-  obtain ⟨h1, _, _⟩ := evalP_replay env tf e m fl orcl i
+    (hq : (evalR env e m fl ((evalTop env e m fl).answers orcl i)).2[k]? = some q)
+    (ha : ((evalTop env e m fl).answers orcl i)[k]? = some a) (hF : FailAns env.timeFormat q a) :
+    (Own.runO orcl (evalP env e m fl) i).1.1 = .error ∧
+    (evalR env e m fl ((evalTop env e m fl).answers orcl i)).2.length = k + 1 := by
+  obtain ⟨h1, _, _⟩ := evalP_replay env e m fl orcl i
   rw [h1]
-  exact (evalT_failStops env tf m e 0 m { ml := [], flags := fl }).run _ k q a hq ha hF
+  exact (evalT_failStops env m e 0 m { ml := [], flags := fl }).run _ k q a hq ha hF
 
 /-! ## which call results are failing answers -/
 
@@ -246,50 +247,35 @@ theorem sysCall_command_value (av : List Bytes) (orcl : Nat → Call → Res) (j
   simp only [sysCall, Own.runO_bind, Own.runO_ret, Own.execP_run]
   cases orcl j (.openPath (ofString "/dev/null")) <;> rfl
 
-/-- `exec()` returns a negative value exactly when `/dev/null` cannot be opened, `fork` fails, `waitpid` fails, or the
-child exited with status 127 (`execvp` failed: the program cannot be run). -/
+/-- **A `command` condition inside a run is `Model.eval` with the command oracle `exec()` on the results of its three
+calls** (`open("/dev/null")` at step `j`, `fork` at `j + 1`, `waitpid` at `j + 2`): the bridge from the evaluator-level
+statements of Proofs/ExecStatus.lean (`eval_command`, `commandTri`, `childOutcome`) to the evaluation inside the run. -/
+theorem evalT_command_run (env : Env) (root : Msg) (lno : Nat) (argv : List Bytes) (part : Nat) (m : Msg) (st : St)
+    (orcl : Nat → Call → Res) (j : Nat) :
+    (Own.runO orcl (evalT env root (.command lno argv) part m st).toProg j).1 =
+      eval { env with command := (fun _ =>
+          execValue (match orcl j (.openPath (ofString "/dev/null")) with | .ok _ => true | _ => false)
+            (orcl (j + 1) .fork) (orcl (j + 2) .waitpid)) }
+        root (.command lno argv) part m st := by
+  rw [eval_command]
+  have happ : matchesAppend env st.ml { ty := .command, lno := lno, part := part, strings := argv } =
+      (st.ml ++ [{ ty := .command, lno := lno, part := part, strings := argv }], false) :=
+    matchesAppend_plain env st.ml _ rfl rfl
+  simp only [evalT, happ, List.dropLast_concat, Bool.false_eq_true, if_false]
+  cases hav : argv.mapM (interpolate st.ml none) with
+  | none => cases st; rfl
+  | some av =>
+    simp only [ask, Ask.ask_bind, Ask.ret_bind, Ask.toProg, Own.runO_bind, Own.runO_ret, sysCall_command_value, ansStatus,
+      commandTri]
+    cases st
+    cases orcl j (.openPath (ofString "/dev/null")) <;> rfl
+
+/-- `exec()` returns a negative value exactly when the child could not be run (`/dev/null` cannot be opened, `fork` fails,
+`waitpid` fails: `ChildOutcome.cannotRun`) or exited with status 127 (its `execvp` failed) - in the terms of
+Proofs/ExecStatus.lean (`childOutcome`, `waitKind`). -/
 theorem execValue_neg_iff (d : Bool) (f w : Res) :
-    execValue d f w < 0 ↔
-      d = false ∨ (∀ v, f ≠ .ok v) ∨ (∀ s, w ≠ .ok s) ∨ ∃ s, w = .ok s ∧ s % 128 = 0 ∧ (s / 256) % 256 = 127 := by
-  unfold execValue
-  cases d with
-  | false => simp
-  | true =>
-    simp only [Bool.not_true, Bool.false_eq_true, ↓reduceIte, Bool.true_eq_false, false_or]
-    cases f with
-    | ok v =>
-      cases w with
-      | ok s =>
-        dsimp only
-        by_cases h1 : s % 128 = 0
-        · simp only [h1, beq_self_eq_true, ↓reduceIte]
-          by_cases h2 : (s / 256) % 256 = 127
-          · simp only [h2, beq_self_eq_true, ↓reduceIte]
-            constructor
-            · intro _; exact .inr (.inr ⟨s, rfl, h1, h2⟩)
-            · intro _; decide
-          · have : ((s / 256 % 256 == 127) = false) := by simp [h2]
-            simp only [this, Bool.false_eq_true, ↓reduceIte]
-            constructor
-            · intro h; omega
-            · rintro (h | h | ⟨s', hs, _, h3⟩)
-              · exact absurd rfl (h v)
-              · exact absurd rfl (h s)
-              · cases hs; exact absurd h3 h2
-        · have : ((s % 128 == 0) = false) := by simp [h1]
-          simp only [this, Bool.false_eq_true, ↓reduceIte]
-          constructor
-          · intro h; omega
-          · rintro (h | h | ⟨s', hs, h3, _⟩)
-            · exact absurd rfl (h v)
-            · exact absurd rfl (h s)
-            · cases hs; exact absurd h3 h1
-      | name n => simp
-      | eof => simp
-      | err e => simp
-    | name n => simp
-    | eof => simp
-    | err e => simp
+    execValue d f w < 0 ↔ childOutcome d f w = .cannotRun ∨ childOutcome d f w = .waited (.exited 127) := by
+  rw [← commandTri_error_iff, execValue_outcome, commandTri_outcome, outcomeTri_error_iff]
 
 /-- The answer to a file-time question: `stat` of the message's path; a `stat` that does not succeed is a failure. -/
 theorem sysCall_fileTime_value (p : Bytes) (f : DateField) (orcl : Nat → Call → Res) (j : Nat) :
